@@ -3,11 +3,18 @@ package timed
 import (
 	"context"
 	"errors"
+	"fmt"
 	"io"
 	"net"
 	"net/http"
+	"reflect"
+	"strconv"
 	"sync"
 	"time"
+
+	"github.com/karagenc/socket.io-go/parser"
+	jsonparser "github.com/karagenc/socket.io-go/parser/json"
+	"github.com/karagenc/socket.io-go/parser/json/serializer/stdjson"
 
 	sio "github.com/karagenc/socket.io-go"
 	eio "github.com/karagenc/socket.io-go/engine.io"
@@ -24,10 +31,12 @@ type memNet struct {
 	conns    []*faultConn
 	dials    int
 	onDial   func(n int)
+	holeC2S  bool // applied to connections dialled from now on
+	holeS2C  bool
 }
 
 func newMemNet() *memNet {
-	return &memNet{accept: make(chan net.Conn, 64), closed: make(chan struct{})}
+	return &memNet{accept: make(chan net.Conn), closed: make(chan struct{})}
 }
 
 type memAddr struct{}
@@ -70,12 +79,18 @@ func (n *memNet) Dial(ctx context.Context, network, addr string) (net.Conn, erro
 	if cb != nil {
 		cb(d)
 	}
+	select {
+	case <-n.closed:
+		refuse = true
+	default:
+	}
 	if refuse {
 		return nil, errors.New("memnet: connection refused")
 	}
 	c, s := net.Pipe()
 	fc := &faultConn{Conn: c, peer: s}
 	n.mu.Lock()
+	fc.holeC2S, fc.holeS2C = n.holeC2S, n.holeS2C
 	n.conns = append(n.conns, fc)
 	n.mu.Unlock()
 	select {
@@ -213,3 +228,72 @@ func (r *rig) manager(transports []string, cfg *sio.ManagerConfig) *sio.Manager 
 }
 
 var _ = eio.ProtocolVersion
+
+// ---------------------------------------------------------------- wire tap: packets in the order the decoder finishes them
+
+type tapRecord struct {
+	conn    int // which parser instance (one per connection)
+	typ     parser.PacketType
+	nsp     string
+	id      string // ack id or "-"
+	event   string
+	first   string // first argument, rendered
+	nframes int
+}
+
+type wireTap struct {
+	mu    sync.Mutex
+	recs  []tapRecord
+	conns int
+	inner parser.Creator
+}
+
+func newWireTap() *wireTap {
+	return &wireTap{inner: jsonparser.NewCreator(0, stdjson.New())}
+}
+
+func (w *wireTap) creator() parser.Creator {
+	return func() parser.Parser {
+		w.mu.Lock()
+		w.conns++
+		id := w.conns
+		w.mu.Unlock()
+		return &tapParser{w: w, conn: id, inner: w.inner()}
+	}
+}
+
+func (w *wireTap) records() []tapRecord {
+	w.mu.Lock()
+	defer w.mu.Unlock()
+	return append([]tapRecord(nil), w.recs...)
+}
+
+type tapParser struct {
+	w       *wireTap
+	conn    int
+	inner   parser.Parser
+	nframes int
+}
+
+func (p *tapParser) Encode(h *parser.PacketHeader, v any) ([][]byte, error) { return p.inner.Encode(h, v) }
+func (p *tapParser) Reset()                                                { p.inner.Reset(); p.nframes = 0 }
+func (p *tapParser) Add(data []byte, finish parser.Finish) error {
+	p.nframes++
+	return p.inner.Add(data, func(h *parser.PacketHeader, name string, decode parser.Decode) {
+		rec := tapRecord{conn: p.conn, typ: h.Type, nsp: h.Namespace, event: name, id: "-", nframes: p.nframes}
+		p.nframes = 0
+		if h.ID != nil {
+			rec.id = strconv.FormatUint(*h.ID, 10)
+		}
+		if h.IsEvent() || h.IsAck() {
+			var first any
+			if vals, err := decode(reflect.TypeOf(&first)); err == nil && len(vals) == 1 {
+				rec.first = fmt.Sprint(vals[0].Elem().Interface())
+			}
+		}
+		p.w.mu.Lock()
+		p.w.recs = append(p.w.recs, rec)
+		p.w.mu.Unlock()
+		finish(h, name, decode)
+	})
+}
